@@ -129,6 +129,59 @@ Theorem C09_quantile_pos : forall q eps r : R, 0 < q < 1 -> 0 < eps -> 0 < quant
 Proof. exact quantile_pos. Qed.
 Print Assumptions C09_quantile_pos.
 
+(* ---- default / derived parameters of the rules (the same Gallina definitions run bit-exactly
+   against _weighting.py with eps=None and with degenerate standard deviations) ---- *)
+
+(* _quantile as coded, for EVERY choice of eps (None = documented default from the fit, or any explicit
+   value, even <= 0): strictly positive and at most 1/sqrt(_MIN_FLOAT), because the effective eps is
+   max(eps, _MIN_FLOAT) *)
+Theorem C09_quantile_full_range : forall (c minf q m : R) (eps : option R) (r : R), 0 < q < 1 -> 0 < minf ->
+  0 < quantile_full_w Num_R c minf q m eps r <= 1 / sqrt minf.
+Proof. exact quantile_full_range. Qed.
+Print Assumptions C09_quantile_full_range.
+
+(* the default eps (c * max(abs(fit)))**2 is > 0 exactly when the fit is not identically zero *)
+Theorem C09_quantile_default_eps_pos_iff : forall (c : R) (fit : list R), 0 < c ->
+  (0 < eps_default Num_R c (max_abs fit) <-> exists x, In x fit /\ x <> 0).
+Proof. exact eps_default_fit_pos_iff. Qed.
+Print Assumptions C09_quantile_default_eps_pos_iff.
+
+(* eps=None, fit not below the floor: the rule is the documented one with eps = (1e-6*max|fit|)**2 *)
+Theorem C09_quantile_default_documented : forall (c minf q : R) (fit : list R) (r : R),
+  minf <= (c * max_abs fit) * (c * max_abs fit) ->
+  quantile_full_w Num_R c minf q (max_abs fit) None r
+  = quantile_w Num_R q ((c * max_abs fit) * (c * max_abs fit)) r.
+Proof. exact quantile_default_documented. Qed.
+Print Assumptions C09_quantile_default_documented.
+
+(* eps=None, all-zero fit: the default eps is 0 and the rule runs with eps = _MIN_FLOAT *)
+Theorem C09_quantile_default_zero_fit : forall (c minf q : R) (fit : list R) (r : R),
+  0 <= minf -> Forall (fun x => x = 0) fit ->
+  quantile_full_w Num_R c minf q (max_abs fit) None r = quantile_w Num_R q minf r.
+Proof. exact quantile_default_zero_fit. Qed.
+Print Assumptions C09_quantile_default_zero_fit.
+
+(* max(abs(fit)) is not abs(max(fit)): for fit = [-5, 0] the first gives eps > 0, the second eps = 0 *)
+Theorem C09_quantile_eps_abs_of_max_differs :
+  let fit := (-5) :: 0 :: nil in
+  0 < eps_default Num_R 1 (max_abs fit) /\ eps_default Num_R 1 (Rabs (max_list fit)) = 0.
+Proof. exact eps_abs_of_max_differs. Qed.
+Print Assumptions C09_quantile_eps_abs_of_max_differs.
+
+(* drpls / lsrpls / iarpls with the standard deviation as the code derives it (_safe_std: a std that
+   is exactly 0 is replaced by _MIN_FLOAT): antitone for every std >= 0, no hypothesis std > 0 left *)
+Theorem C09_drpls_lsrpls_safe_std_antitone : forall minf scale std mean r1 r2 : R,
+  0 < minf -> 0 < scale -> 0 <= std -> r1 <= r2 ->
+  drpls_full_w Num_R minf scale std mean r2 <= drpls_full_w Num_R minf scale std mean r1.
+Proof. exact drpls_full_antitone. Qed.
+Print Assumptions C09_drpls_lsrpls_safe_std_antitone.
+
+Theorem C09_iarpls_safe_std_antitone : forall minf scale std r1 r2 : R,
+  0 < minf -> 0 < scale -> 0 <= std -> r1 <= r2 ->
+  iarpls_full_w Num_R minf scale std r2 <= iarpls_full_w Num_R minf scale std r1.
+Proof. exact iarpls_full_antitone. Qed.
+Print Assumptions C09_iarpls_safe_std_antitone.
+
 Example C09_rules_nonvacuous :
   0 < drpls_w Num_R 10 1 (-1) 0 < 1 /\ asls_w Num_R (/ 100) 0 0 = 1 - / 100.
 Proof.
